@@ -4,6 +4,7 @@ import (
 	"errors"
 	"fmt"
 	"math/rand"
+	"os"
 	"strings"
 	"testing"
 	"testing/synctest"
@@ -168,6 +169,7 @@ type sessionResult struct {
 	TasksLeft []string
 	OpenSeq, OpenRetSeq, CloseSeq, CloseRetSeq int
 	BubblePanic string
+	ProcFDs, ProcMaps []string
 }
 
 type dbRunner struct {
@@ -303,6 +305,31 @@ func (r *dbRunner) runSession(si int, s dbSession) (res sessionResult) {
 		}
 		res.Handles = w.OpenHandles()
 		res.Mappings = w.OpenMappings()
+		res.TasksLeft = rr.WaitFor
+		res.ProcFDs, res.ProcMaps = procRefs(r.dir)
+		if len(rr.WaitFor) > 0 {
+			w.KillTasks()
+		}
 	})
 	return res
+}
+
+// procRefs lists descriptors and mappings of this process that point below dir (independent of the ledger).
+func procRefs(dir string) (fds, maps []string) {
+	ents, err := os.ReadDir("/proc/self/fd")
+	if err == nil {
+		for _, e := range ents {
+			if l, err := os.Readlink("/proc/self/fd/" + e.Name()); err == nil && strings.HasPrefix(l, dir+"/") {
+				fds = append(fds, strings.TrimPrefix(l, dir+"/"))
+			}
+		}
+	}
+	if b, err := os.ReadFile("/proc/self/maps"); err == nil {
+		for _, line := range strings.Split(string(b), "\n") {
+			if i := strings.Index(line, dir+"/"); i >= 0 {
+				maps = append(maps, line[i+len(dir)+1:])
+			}
+		}
+	}
+	return
 }
